@@ -1,7 +1,4 @@
 // Bv: canonical digits of the value through the active representation (needs bvf_hash.rs, bvd_hash.rs for u64, bv_val.rs)
-impl Bv {
-    pub open spec fn words(&self) -> Seq<u64> { match self { Bv::Fixed(b) => b.data@, Bv::Dynamic(b) => b.data@ } }
-}
 pub proof fn lemma_bv_hash_words(v: &Bv)
     requires v.wf()
     ensures forall|r: int| #[trigger] v.is_sig(r) ==> 0 <= hwords(r) <= v.words().len() && canon(v.val()) =~= v.words().subrange(0, hwords(r))
